@@ -607,6 +607,12 @@ func envFacts(f *ast.File) EnvFacts {
 				}
 			}
 		case *ast.RangeStmt:
+			if len(s.Body.List) != 1 {
+				die("generateProxyEnv: the loop over the FROM items holds more than the switch on the kind (%d statements): unknown shape", len(s.Body.List))
+			}
+			if _, ok := s.Body.List[0].(*ast.SwitchStmt); !ok {
+				die("generateProxyEnv: the loop over the FROM items is not a single switch: unknown shape")
+			}
 			ast.Inspect(s, func(n ast.Node) bool {
 				sw, ok := n.(*ast.SwitchStmt)
 				if !ok {
